@@ -329,9 +329,18 @@ def run_unit(gen_dir, index, specs, fname, prop, work, timeout=300, solver='cadi
              extra_harness='', extra_cbmc=(), debug=False, canaries=False):
     """returns dict(status=ok|fail|infra, obligations, failures[], time, detail)"""
     os.makedirs(work, exist_ok=True)
-    tag = fname + ('.' + prop if prop else '')
+    unit_name = fname
+    gcc_extra = []
+    if '@' in fname:
+        # byte-level variants of the binary codec units: <function>@le / @be = little / big endian machine model
+        fname, variant = fname.split('@', 1)
+        if variant not in ('le', 'be'):
+            raise ValueError('unknown unit variant ' + variant)
+        defines = tuple(defines) + ('BG_STREAM_BYTES', 'BG_HOST_BIG_ENDIAN=%d' % (variant == 'be'))
+        gcc_extra = ['--big-endian' if variant == 'be' else '--little-endian']
+    tag = unit_name.replace('@', '.') + ('.' + prop if prop else '')
     cfile = os.path.join(work, tag + '.c')
-    res = {'unit': fname, 'prop': prop, 'status': 'infra', 'obligations': 0, 'discharged': 0, 'failures': [],
+    res = {'unit': unit_name, 'prop': prop, 'status': 'infra', 'obligations': 0, 'discharged': 0, 'failures': [],
            'solver_s': 0.0, 'backend': solver}
     try:
         info = gen_unit(gen_dir, index, specs, fname, prop, cfile, extra_harness, debug, canaries)
@@ -345,7 +354,7 @@ def run_unit(gen_dir, index, specs, fname, prop, work, timeout=300, solver='cadi
     gb, gb2 = os.path.join(work, tag + '.gb'), os.path.join(work, tag + '.i.gb')
     defs = ['-DBG_ABSTRACT', '-DBG_L=%s' % label_of(fname), '-DBG_PROP_%s' % (prop or 'ALL')] + ['-D' + d for d in defines]
     rc, so, se, dt = run(['goto-cc', '-I', os.path.join(ROOT, 'shim'), '-I', gen_dir, '-I', os.path.join(ROOT, 'contracts')]
-                         + defs + ['--function', 'bg_harness', cfile, os.path.join(ROOT, 'shim', 'abstract_globals.c'),
+                         + defs + gcc_extra + ['--function', 'bg_harness', cfile, os.path.join(ROOT, 'shim', 'abstract_globals.c'),
                                    '-o', gb], 120)
     if rc != 0:
         res['detail'] = 'goto-cc failed: ' + (se or so)[-2000:]
